@@ -10,6 +10,7 @@
      predict     an uninterpreted function of the values of a declared set [rel] of attributes.
    Definitions only. *)
 From Coq Require Import Arith List Bool ZArith.
+From GPV Require Import Models.C03_cache.
 Import ListNotations.
 
 Inductive cls := CParam | CBuffer | CPlain | CCache.
@@ -96,3 +97,118 @@ Definition run_persist (c : list (Z * Z * Z) * list (Z * Z * Z) * list Z * list 
     b2z (olist_eqb (predict rel (copy dr o)) (predict rel o));
     Z.of_nat (length (filter is_cache (load o (state_dict o))));
     Z.of_nat (length bad) ] ++ map Z.of_nat bad.
+
+(* ---- executable wrapper on full attribute tables (what the driver runs) ----
+   case = (source fields, freshly constructed target fields, relevant attrs, attrs dropped by the
+   copy mechanism).  Result, as a flat list:
+     strict load ok (0/1);
+     #missing keys, keys...;  #unexpected keys, keys...;
+     #fields of the object restored by state_dict->fresh (non-strict load), (attr, class, value)...;
+     #fields of the object restored by the copy mechanism, (attr, class, value)...;
+     number of caches left after loading the state_dict back into the SOURCE itself;
+     predict preserved by state_dict->fresh (0/1);  predict preserved by copy (0/1);
+     #relevant attrs violating the premise, attrs...;
+     #relevant attrs dropped by the copy mechanism, attrs... *)
+Definition code_of (c : cls) : Z :=
+  match c with CParam => 0%Z | CBuffer => 1%Z | CPlain => 2%Z | CCache => 3%Z end.
+Definition ser_obj (o : obj) : list Z :=
+  Z.of_nat (length o) :: flat_map (fun f => [Z.of_nat (f_attr f); code_of (f_cls f); Z.of_nat (f_val f)]) o.
+Definition ser_nats (l : list nat) : list Z := Z.of_nat (length l) :: map Z.of_nat l.
+Definition run_table (c : list (Z * Z * Z) * list (Z * Z * Z) * list Z * list Z) : list Z :=
+  let '(oe, fe, rel, dr) := c in
+  let o := dec_obj oe in let fr := dec_obj fe in
+  let rel := map Z.to_nat rel in let dr := map Z.to_nat dr in
+  let sd := state_dict o in
+  let bad := filter (fun a => negb (premise o fr a)) rel in
+  let lost := filter (fun a => memb a dr && match find_attr a o with Some _ => true | None => false end) rel in
+  let b2z := fun b : bool => if b then 1%Z else 0%Z in
+  [ b2z (match load_strict fr sd with Some _ => true | None => false end) ]
+  ++ ser_nats (missing_keys fr sd) ++ ser_nats (unexpected_keys fr sd)
+  ++ ser_obj (load fr sd) ++ ser_obj (copy dr o)
+  ++ [ Z.of_nat (length (filter is_cache (load o sd)));
+       b2z (olist_eqb (predict rel (load fr sd)) (predict rel o));
+       b2z (olist_eqb (predict rel (copy dr o)) (predict rel o)) ]
+  ++ ser_nats bad ++ ser_nats lost.
+
+(* ---- persisted objects over HISTORIES: attribute table + the C03 cache machine ----------
+   A family is described by the table of a freshly constructed object (default values), the
+   plain attributes that hold constructor arguments replaced by set_train_data (training data,
+   fixed noise), and the buffers that are only registered by the first call (RFFKernel's
+   randn_weights).  The table evolves with the same operations as the C03 machine; an oracle
+   [nv version attr] supplies the (arbitrary) values an optimiser step / a loaded state_dict / new
+   training data put into an attribute. *)
+Record tfam := mkTF { t_c03 : family; t_ctor : obj; t_data : list nat; t_lazy : list field }.
+Record pobj := mkP { p_tbl : obj; p_st : state }.
+
+Definition set_val (f : field) (v : nat) : field := mkF (f_attr f) (f_cls f) v.
+Definition is_param (f : field) : bool := match f_cls f with CParam => true | _ => false end.
+Definition has_attr (a : nat) (o : obj) : bool := match find_attr a o with Some _ => true | None => false end.
+Definition is_data (tf : tfam) (f : field) : bool := is_plain f && memb (f_attr f) (t_data tf).
+
+(* a call registers the lazily created buffers that are not there yet *)
+Definition touch (tf : tfam) (o : obj) : obj :=
+  o ++ filter (fun f => negb (has_attr (f_attr f) o)) (t_lazy tf).
+
+Definition tstep (tf : tfam) (nv : nat -> nat -> nat) (s : state) (o : op) (t : obj) : obj :=
+  match o with
+  | OTrain | OEval => t
+  | OStep =>
+      if training s
+      then map (fun f => if is_param f then set_val f (nv (S (pv s)) (f_attr f)) else f) (touch tf t)
+      else t
+  | OSetData =>
+      if f_has_data (t_c03 tf)
+      then map (fun f => if is_data tf f then set_val f (nv (S (dv s)) (f_attr f)) else f) t
+      else t
+  | OLoad => map (fun f => if carried f then set_val f (nv (S (pv s)) (f_attr f)) else f) t
+  | OPrior => if training s then t else touch tf t
+  | OFantasy | OBackward | OPredict _ => touch tf t
+  end.
+
+Definition pstep (tf : tfam) (nv : nat -> nat -> nat) (p : pobj) (o : op) : pobj :=
+  mkP (tstep tf nv (p_st p) o (p_tbl p)) (fst (step all_on (t_c03 tf) (p_st p) o)).
+Fixpoint prun (tf : tfam) (nv : nat -> nat -> nat) (p : pobj) (h : list op) : pobj :=
+  match h with
+  | [] => p
+  | o :: r => prun tf nv (pstep tf nv p o) r
+  end.
+Definition pinit (tf : tfam) : pobj := mkP (t_ctor tf) init.
+
+(* a freshly constructed object, built from the CURRENT constructor arguments of the source *)
+Definition construct (tf : tfam) (src : obj) : obj :=
+  map (fun f => if is_data tf f
+                then match get (f_attr f) src with Some v => set_val f v | None => f end
+                else f) (t_ctor tf).
+
+(* state_dict -> freshly constructed object (put in the mode of the source) *)
+Definition restore_sd (tf : tfam) (p : pobj) : pobj :=
+  mkP (load (construct tf (p_tbl p)) (state_dict (p_tbl p)))
+      (fresh (pv (p_st p)) (dv (p_st p)) (training (p_st p))).
+(* pickle: everything is carried, caches included *)
+Definition restore_pickle (p : pobj) : pobj := p.
+(* deepcopy: DefaultPredictionStrategy.__deepcopy__ drops the strategy and what hangs off it *)
+Definition restore_deepcopy (tf : tfam) (p : pobj) : pobj :=
+  mkP (p_tbl p) (set_cache (p_st p) (drop (f_strat_slots (t_c03 tf)) (cch (p_st p)))).
+
+(* what the property observes: the values of the relevant attributes and what an eval-mode
+   prediction under configuration c is computed from *)
+Definition pobserve (tf : tfam) (rel : list nat) (p : pobj) (c : nat)
+  : list (option nat) * (nat * list (nat * tag)) :=
+  (predict rel (p_tbl p), predict_out all_on (t_c03 tf) (p_st p) c).
+
+Fixpoint nodupb (l : list nat) : bool :=
+  match l with
+  | [] => true
+  | x :: r => negb (memb x r) && nodupb r
+  end.
+Definition wf_tfam (tf : tfam) : bool :=
+  nodupb (map f_attr (t_ctor tf)) && forallb (fun f => negb (is_cache f)) (t_ctor tf).
+
+(* concrete descriptors: an exact GP with fixed noise (attrs: 0 raw_lengthscale, 1 raw_noise,
+   2 constraint lower bound, 3 train_inputs, 4 train_targets, 5 fixed noise, 6 Interval._initial_value)
+   and the same with an RFF kernel whose random features (attr 7) are registered lazily *)
+Definition tf_exact : tfam :=
+  mkTF fam_exact [mkF 0 CParam 100; mkF 1 CParam 101; mkF 2 CBuffer 102; mkF 3 CPlain 103; mkF 4 CPlain 104;
+                  mkF 5 CPlain 105; mkF 6 CPlain 106] [3; 4; 5] [].
+Definition tf_rff : tfam :=
+  mkTF fam_exact (t_ctor tf_exact) [3; 4; 5] [mkF 7 CBuffer 107].
